@@ -18,7 +18,7 @@ var _ KeyBuilderContext = &subContext{}
 var subContextPool = slicepool.NewObjectPool[subContext](5)
 
 func (s *subContext) GetMatch(idx int) string {
-	if idx < len(s.vals) {
+	if idx >= 0 && idx < len(s.vals) {
 		return s.vals[idx]
 	}
 	return ""
